@@ -135,8 +135,11 @@ func (st *Stack) reloadOnce(names []string, reuseOpen bool) error {
 	}
 
 	var newTables []*Reader
+	// Readers opened by this call. On failure, only these are closed:
+	// reused readers stay in st.stack and must remain usable.
+	var opened []*Reader
 	defer func() {
-		for _, t := range newTables {
+		for _, t := range opened {
 			t.Close()
 		}
 	}()
@@ -155,13 +158,14 @@ func (st *Stack) reloadOnce(names []string, reuseOpen bool) error {
 			if err != nil {
 				return fmt.Errorf("NewReader(%s): %v", name, err)
 			}
+			opened = append(opened, rd)
 		}
 		newTables = append(newTables, rd)
 	}
 
 	// success. Swap.
 	st.stack = newTables
-	newTables = nil
+	opened = nil
 	for _, old := range cur {
 		old.Close()
 
